@@ -18,6 +18,7 @@ UNIT_PROPS = {
     "cob_auth": ["C07"],
     "cob_auth_patch": ["C07"],
     "cob_identity": ["C04"],
+    "sync": ["C25"],
 }
 
 CRYPTO_GROUP = ["signature_roundtrip", "public_key_roundtrip"]
@@ -120,10 +121,10 @@ PROPS = {
     },
     "C27": {
         "vx": ["ssh"],
-        "kx": [_cr("public_key_roundtrip"), _cr("signature_roundtrip")],
+        "kx": [_cr("public_key_roundtrip")],
         "technique": "Verus panic-freedom on extracted encoding::Cursor and AgentClient::{request_identities,sign,read_signature} for an arbitrary agent reply; Kani full-domain round-trip harnesses for PublicKey/Signature SSH encoding",
-        "explanation": "For any reply bytes (ClientStream::request result arbitrary) request_identities, sign and read_signature index and slice within bounds and copy_from_slice only with equal lengths; Cursor::{read_u32,read_string,read_byte,read_mpint} never read out of bounds and advance exactly. Kani: for all 2^256 keys and 2^512 signatures, write then read yields the same value and consumes the whole encoding.",
-        "not_decided": "mpint_len/extend_ssh_mpint (local encoding side) not covered; Zeroizing<Vec<u8>> assumed transparent; 64-bit usize assumed.",
+        "explanation": "For any reply bytes (ClientStream::request result arbitrary) request_identities, sign and read_signature index and slice within bounds and copy_from_slice only with equal lengths; Cursor::{read_u32,read_string,read_byte,read_mpint} never read out of bounds and advance exactly. Kani: for all 2^256 public keys, write then read of the key blob yields the same key and consumes the whole encoding.",
+        "not_decided": "Signature round-trip: the Kani harness (kx/harness/crypto_ssh.rs: signature_roundtrip) did not finish within 60 min with cadical nor 12 min with kissat and is NOT run or counted; mpint_len/extend_ssh_mpint (local encoding side) not covered; Zeroizing<Vec<u8>> assumed transparent; 64-bit usize assumed.",
     },
     "C04": {
         "vx": ["cob_identity", "identity", "cob_op"],
@@ -145,5 +146,12 @@ PROPS = {
         "technique": "Verus postcondition = the statement's rule table on the extracted Issue::authorization / Patch::authorization (+ lookup::review/revision); gate idiom on op_action (sink `action` requires authorization)",
         "explanation": "Issue::authorization and Patch::authorization return Allow only for delegates of the referenced document or when the rule table written from the statement allows it (assign/label/merge: delegates only, no-op tolerated; edit/lifecycle: object author; comment, review, revision edit/redact: their author). op_action reaches the mutating `action` only on Allow; Deny is an error and Unknown leaves the object unchanged.",
         "not_decided": "What `action` then does to the object; Issue::author / Thread::comment lookups are assumed accessors; Patch representation invariant reviews_wf assumed.",
+    },
+    "C25": {
+        "vx": ["sync"],
+        "kx": [],
+        "technique": "Verus postconditions (both directions) on the extracted ReplicationFactor, Target::new, Announcer::{is_target_reached,synced_with,timed_out}, Fetcher::{is_target_reached,include_node} against a target_met spec written from the statement",
+        "explanation": "is_target_reached returns Some exactly when the target is met (announcer: all preferred seeds synced and the replica count reached; fetcher: all preferred seeds fetched or the replica count reached; the count is the maximum of a range, else the minimum); Announcer::timed_out reports Success exactly then and TimedOut otherwise; synced_with(local node) changes nothing; Fetcher::include_node excludes the local node and nodes that already have a result; ReplicationFactor::range/min keep lower < upper.",
+        "not_decided": "success_counts (fold closures), next_node / next_fetch (iterator adapters with closures), Announcer::new, Fetcher::finish, missing_seeds are not ingested; the counts are ghost values assumed to be what success_counts returns.",
     },
 }
